@@ -134,6 +134,7 @@ func (s *asyncSubjectImpl[T]) ErrorWithContext(ctx context.Context, err error) {
 	}
 
 	s.mu.Unlock()
+	verifPoint("subject.terminal.unlocked")
 	s.unsubscribeAll()
 }
 
@@ -158,6 +159,7 @@ func (s *asyncSubjectImpl[T]) CompleteWithContext(ctx context.Context) {
 	}
 
 	s.mu.Unlock()
+	verifPoint("subject.terminal.unlocked")
 	s.unsubscribeAll()
 }
 
